@@ -147,6 +147,8 @@ def fixed():
         "c14 0:%s,X,%s/10:S" % (",".join(["G"] * 99), ",".join(["S"] * 5)),
         # listeners with events in the same iteration as the shutdown (within capacity)
         "c14 0:B%s/10:P%s*8,X/10:S" % (ty, ty),
+        "c14 0:B%s/10:P%s*8/10:B%s,X" % (ty, ty, ty),
+        # ... and one more cached instance overflows the new listener during the clean-up (known finding)
         "c14 0:B%s/10:P%s*9/10:B%s,X" % (ty, ty, ty),
         # a listener overflows: the daemon thread blocks (known finding)
         "c14 0:B%s/10:P%s*10,X,S/10:S,G" % (ty, ty),
